@@ -270,7 +270,7 @@ def record_edge_ops(ctx, items, idx):
                 rec.restore()
             ham = res[0] if isinstance(res, tuple) else res
             if not isinstance(ham, Hamiltonian) or ham.name != d:
-                ctx.violation("edge-lands-elsewhere:%s->%s" % (s, d),
+                _viol(ctx, "edge-lands-elsewhere:%s->%s" % (s, d),
                               "conversion %s -> %s returns %r (name %r)" % (s, d, type(ham).__name__, getattr(ham, "name", None)),
                               {"edge": [s, d], "point": "earth-moon L%d" % idx, "degree": 3})
             kinds = [c[0] for c in rec.calls]
@@ -339,6 +339,27 @@ def gen(ctx):
     return {"items": items, "forms": forms, "keys": keys, "conv": conv, "trace": tr, "ops": (ops_col, ops_tri)}
 
 
+def _viol(ctx, key, what, replay):
+    """one violation per key (the first input that shows it)"""
+    seen = ctx.__dict__.setdefault("_c18_seen", set())
+    if key in seen:
+        return
+    seen.add(key)
+    ctx.violation(key, what, replay)
+
+
+def replay(ctx, rec):
+    """re-run the part of the search that produced the recorded violation (same system / point / degree when recorded)"""
+    g = gen(ctx)
+    ctx.lean_build(PROP_MODS)
+    r = rec.get("replay", {})
+    if "system" in r and "degree" in r and "edge" in r:
+        run_edges(ctx, g, plan=[(r["system"], int(str(r["point"]).lstrip("L")), int(r["degree"]))])
+    else:
+        for phase in (lambda c: run_edges(c, g), random_polys, pointwise_maps):
+            phase(ctx)
+
+
 def run(ctx):
     g = gen(ctx)
     ok = ctx.lean_build(PROP_MODS)
@@ -346,3 +367,699 @@ def run(ctx):
         ctx.lean_audit(PROP_MODS, SRC_MODS)
         if ctx.thorough():
             ctx.leanchecker(PROP_MODS)
+    for phase in (corr_substitute, lambda c: corr_pipeline(c, g), lambda c: validate_traces(c, g), lambda c: run_edges(c, g),
+                  random_polys, pointwise_maps):
+        phase(ctx)
+        ctx.log("phase done: %s" % getattr(phase, "__name__", "g-phase"))
+    ctx.rule = ("substitution correspondence: seeded sparse Gaussian-integer 6x6 matrices x integer/Gaussian polynomials of degree <= 4 "
+                "(non-trivial: >= 2 terms and a matrix row with >= 2 entries); pipeline histories: seeded get_hamiltonian sequences on the live "
+                "registry and on random registries (non-trivial: a multi-step path or an error); real pipelines: all registry edges x "
+                "(system, libration point, degree) (non-trivial: the conversion changes the polynomial); random polynomials x the four "
+                "linear changes x degrees 2..8; point maps at random coordinates for L1..L5 of several systems; distinct by rounded input")
+
+
+# ---------------------------------------------------------------------------------------------------------------
+# helpers: packed polynomials <-> dicts
+# ---------------------------------------------------------------------------------------------------------------
+
+def poly_to_dict(poly, deg_max=None):
+    from hiten.algorithms.polynomial.base import _decode_multiindex
+    import polyutil
+    out = {}
+    n = len(poly) - 1
+    psi, clmo, enc = polyutil.tables(n)
+    for deg, block in enumerate(poly):
+        blk = np.asarray(block)
+        for pos in np.nonzero(blk)[0]:
+            k = tuple(int(v) for v in _decode_multiindex(int(pos), deg, clmo))
+            out[k] = complex(blk[pos])
+    return out
+
+
+def poly_eval(poly, x):
+    from hiten.algorithms.polynomial.operations import _polynomial_evaluate
+    import polyutil
+    psi, clmo, enc = polyutil.tables(len(poly) - 1)
+    return complex(_polynomial_evaluate(poly, np.asarray(x, dtype=np.complex128), clmo))
+
+
+def poly_maxabs(poly):
+    return max([float(np.max(np.abs(b))) for b in poly if len(b)] + [0.0])
+
+
+def poly_diff(p, q):
+    return max([float(np.max(np.abs(np.asarray(a) - np.asarray(b)))) for a, b in zip(p, q) if len(a)] + [0.0])
+
+
+def fr(x):
+    q = Fraction(x)
+    return "%d" % q.numerator if q.denominator == 1 else "%d/%d" % (q.numerator, q.denominator)
+
+
+def q4s(z):
+    z = complex(z)
+    return "%s,0,%s,0" % (fr(z.real), fr(z.imag))
+
+
+def parse_q4(s):
+    a, b, c, d = [Fraction(v) for v in s.split(",")]
+    return a, b, c, d
+
+
+def q4_float(q):
+    h = 1.0 / math.sqrt(2.0)
+    a, b, c, d = q
+    return complex(float(a) + float(b) * h, float(c) + float(d) * h)
+
+
+def parse_poly_line(line):
+    assert line.startswith("poly"), line
+    out = {}
+    for w in line.split()[1:]:
+        c, k = w.split(":")
+        out[tuple(int(v) for v in k.split("."))] = parse_q4(c)
+    return out
+
+
+# ---------------------------------------------------------------------------------------------------------------
+# correspondence 1: substitution / coordinates / evaluation, model over Q(1/sqrt2)[i] vs the real kernels
+# ---------------------------------------------------------------------------------------------------------------
+
+def _rand_gauss(rng, p_im=0.3, lo=-2, hi=2):
+    re = rng.randint(lo, hi)
+    im = rng.randint(-1, 1) if rng.random() < p_im else 0
+    return complex(re, im)
+
+
+def _rand_matrix(rng):
+    A = np.zeros((6, 6), dtype=np.complex128)
+    for i in range(6):
+        nz = rng.choice([0, 1, 1, 2, 2, 3])
+        for j in rng.sample(range(6), nz):
+            v = 0
+            while v == 0:
+                v = _rand_gauss(rng)
+            A[i, j] = v
+    return A
+
+
+def _rand_poly_dict(rng, max_deg, nterms, gaussian=True, lo=-3, hi=3):
+    d = {}
+    for _ in range(nterms):
+        deg = rng.randint(0, max_deg)
+        k = [0] * 6
+        for _ in range(deg):
+            k[rng.randrange(6)] += 1
+        c = 0
+        while c == 0:
+            c = _rand_gauss(rng, 0.3 if gaussian else 0.0, lo, hi)
+        d[tuple(k)] = d.get(tuple(k), 0) + c
+    return {k: c for k, c in d.items() if c != 0}
+
+
+def _poly_line(name, d):
+    return "poly %s %s" % (name, " ".join("%s:%s" % (q4s(c), ".".join(str(v) for v in k)) for k, c in d.items()))
+
+
+def _mat_line(name, A):
+    return "mat %s %s" % (name, " ".join(q4s(A[i, j]) for i in range(6) for j in range(6)))
+
+
+def _cmp_poly(model, real, exact, tol=1e-13):
+    """model: {k: q4}; real: {k: complex}. Returns None or a message."""
+    keys = set(model) | set(real)
+    for k in sorted(keys):
+        m = model.get(k, (0, 0, 0, 0))
+        r = real.get(k, 0j)
+        if exact:
+            if m[1] != 0 or m[3] != 0 or Fraction(r.real) != m[0] or Fraction(r.imag) != m[2]:
+                return "coefficient of x^%s: model %s, implementation %r" % (list(k), [str(v) for v in m], r)
+        else:
+            if abs(q4_float(m) - r) > tol * (1 + abs(r)):
+                return "coefficient of x^%s: model %r, implementation %r" % (list(k), q4_float(m), r)
+    return None
+
+
+def corr_substitute(ctx):
+    import polyutil
+    from hiten.algorithms.polynomial.operations import _polynomial_clean, _substitute_linear
+    from hiten.algorithms.polynomial.coordinates import _substitute_coordinates
+    from hiten.algorithms.hamiltonian import transforms as TR
+    rng = ctx.rng
+    n = 90 if ctx.thorough() else 30
+    lines, checks = [], []
+    name = "correspondence:substitute-linear"
+    for c in range(n):
+        max_deg = rng.choice([2, 3, 3, 4])
+        A = _rand_matrix(rng)
+        d = _rand_poly_dict(rng, max_deg, rng.randint(1, 4))
+        if not d:
+            continue
+        psi, clmo, enc = polyutil.tables(max_deg)
+        P = polyutil.poly_from_dict(d, max_deg)
+        real = poly_to_dict(_substitute_linear(P, A, max_deg, psi, clmo, enc))
+        lines += [_mat_line("A", A), _poly_line("p", d), "subst p A"]
+        checks.append(("poly", real, True, {"matrix": [[str(v) for v in r] for r in A.tolist()], "poly": {str(k): str(v) for k, v in d.items()}, "max_deg": max_deg}))
+        nontriv = len(d) >= 2 and any(np.count_nonzero(A[i]) >= 2 for i in range(6))
+        ctx.case(("subst", c, max_deg, len(d)), nontrivial=nontriv, kind="subst-linear:deg%d" % max_deg)
+        # second substitution (composition) with another matrix
+        if c % 3 == 0:
+            B = _rand_matrix(rng)
+            real2 = poly_to_dict(_substitute_linear(_substitute_linear(P, A, max_deg, psi, clmo, enc), B, max_deg, psi, clmo, enc))
+            lines += [_mat_line("B", B), "subst2 p A B"]
+            checks.append(("poly", real2, True, {"composition": True}))
+        # the whole linear conversion: substitute, clean with a tolerance that bites (ties |c| == tol included)
+        tolc = rng.choice([1, 1, 2, 2, Fraction(5, 2), 4])
+        realc = poly_to_dict(_polynomial_clean(_substitute_linear(P, A, max_deg, psi, clmo, enc), float(tolc)))
+        lines.append("convert p A %s" % fr(tolc))
+        checks.append(("poly", realc, True, {"convert_tol": str(tolc), "matrix": [[str(v) for v in r] for r in A.tolist()],
+                                             "poly": {str(k): str(v) for k, v in d.items()}}))
+        ctx.hist["convert:cleaned-something"] = ctx.hist.get("convert:cleaned-something", 0) + (1 if len(realc) < len(real) else 0)
+        # coordinates and evaluation at a Gaussian-integer point
+        x = np.array([_rand_gauss(rng, 0.4) for _ in range(6)], dtype=np.complex128)
+        lines.append("apply A " + " ".join(q4s(v) for v in x))
+        checks.append(("vec", _substitute_coordinates(x, A), True, {}))
+        lines.append("eval p " + " ".join(q4s(v) for v in x))
+        checks.append(("val", poly_eval(P, x), True, {}))
+        # the live complexification matrices (irrational entries: compared to 1e-13)
+        if c % 2 == 0:
+            tag = rng.choice(["12", "012"])
+            mp = MIXES[tag]
+            dr = _rand_poly_dict(rng, max_deg, rng.randint(1, 3), gaussian=False)
+            if dr:
+                Pr = polyutil.poly_from_dict(dr, max_deg)
+                rc = TR._substitute_complex(Pr, max_deg, psi, clmo, tol=1e-14, mix_pairs=mp)
+                lines += ["gmat M M" + tag, "gmat N Minv" + tag, _poly_line("r", dr), "subst r M", "subst2 r M N"]
+                checks.append(("poly", poly_to_dict(rc), False, {"fn": "_substitute_complex", "mix": tag}))
+                back = TR._substitute_real(rc, max_deg, psi, clmo, tol=1e-14, mix_pairs=mp)
+                checks.append(("poly", poly_to_dict(back), False, {"fn": "_substitute_real o _substitute_complex", "mix": tag}))
+                raw = poly_to_dict(rc)
+                tolm = rng.choice([0.3, 0.75, 1.2])
+                if raw and min(abs(abs(v) - tolm) for v in raw.values()) > 1e-6:
+                    rcl = TR._substitute_complex(Pr, max_deg, psi, clmo, tol=tolm, mix_pairs=mp)
+                    lines.append("convert r M %s" % fr(tolm))
+                    checks.append(("poly", poly_to_dict(rcl), False, {"fn": "_substitute_complex", "tol": tolm, "mix": tag}))
+                xr = np.array([_rand_gauss(rng, 0.5) for _ in range(6)], dtype=np.complex128)
+                lines.append("apply N " + " ".join(q4s(v) for v in xr))
+                checks.append(("vec", TR._solve_complex(xr, mix_pairs=mp), False, {"fn": "_solve_complex"}))
+                lines.append("apply M " + " ".join(q4s(v) for v in xr))
+                checks.append(("vec", TR._solve_real(xr, mix_pairs=mp), False, {"fn": "_solve_real"}))
+                ctx.case(("substM", c, tag), kind="subst-M" + tag)
+    out = [l for l in ctx.lean_run("Drivers/C18.lean", "\n".join(lines) + "\n") if l.strip()]
+    bad = 0
+    if len(out) != len(checks):
+        ctx.broken.append((name, "driver returned %d lines for %d requests: %r" % (len(out), len(checks), out[:3])))
+        ctx.obligations[name] = False
+        return
+    for line, (kind, real, exact, info) in zip(out, checks):
+        msg = None
+        if kind == "poly":
+            msg = _cmp_poly(parse_poly_line(line), real, exact)
+        elif kind == "vec":
+            mv = [parse_q4(w) for w in line.split()[1:]]
+            for i, (m, r) in enumerate(zip(mv, np.asarray(real))):
+                r = complex(r)
+                okv = (m[1] == 0 and m[3] == 0 and Fraction(r.real) == m[0] and Fraction(r.imag) == m[2]) if exact else abs(q4_float(m) - r) <= 1e-13 * (1 + abs(r))
+                if not okv:
+                    msg = "component %d: model %s implementation %r" % (i, [str(v) for v in m], r)
+                    break
+        else:
+            m = parse_q4(line.split()[1])
+            r = complex(real)
+            if not (m[1] == 0 and m[3] == 0 and Fraction(r.real) == m[0] and Fraction(r.imag) == m[2]):
+                msg = "value: model %s implementation %r" % ([str(v) for v in m], r)
+        ctx.corr_cases += 1
+        if msg:
+            bad += 1
+            if bad <= 3:
+                ctx.broken.append((name, "model and implementation differ (%s): %s; input %r" % (kind, msg, info)))
+            ctx.obligations[name] = False
+    if not bad:
+        ctx.obligations[name] = True
+    ctx.extra["substitute_correspondence_checks"] = len(checks)
+
+
+# ---------------------------------------------------------------------------------------------------------------
+# correspondence 2: HamiltonianPipeline.get_hamiltonian histories (path search, cache, errors) vs `getHam`
+# ---------------------------------------------------------------------------------------------------------------
+
+class _FakeHam:
+    """stands for a Hamiltonian in the pipeline-control-flow correspondence (only `name`/`to_state` are used)"""
+
+    def __init__(self, name):
+        self.name = name
+
+    def to_state(self, target, **kw):
+        from hiten.algorithms.types.services import get_hamiltonian_services
+        return get_hamiltonian_services().conversion.convert(self, target, **kw)
+
+
+class _StubRegistry:
+    """temporarily replaces the contents of both registry tables by recording stub converters"""
+
+    def __init__(self, edges, log):
+        self.edges = edges    # [(src, dst, ctx list)]
+        self.log = log
+
+    def __enter__(self):
+        from hiten.algorithms.types.services import get_hamiltonian_services
+        reg = get_hamiltonian_services()
+        self.reg = reg
+        conv = reg.conversion
+        self.saved = (dict(reg._CONVERSION_REGISTRY), dict(conv._registry))
+        reg._CONVERSION_REGISTRY.clear()
+        conv._registry.clear()
+        for (s, d, c) in self.edges:
+            def mk(s=s, d=d):
+                def stub(ham, **kw):
+                    self.log.append((s, d))
+                    return _FakeHam(d)
+                return stub
+            fn = mk()
+            reg._CONVERSION_REGISTRY[(s, d)] = (fn, list(c), {})
+            conv._registry[(s, d)] = (fn, list(c), {})
+        return self
+
+    def __exit__(self, *a):
+        reg = self.reg
+        reg._CONVERSION_REGISTRY.clear()
+        reg._CONVERSION_REGISTRY.update(self.saved[0])
+        reg.conversion._registry.clear()
+        reg.conversion._registry.update(self.saved[1])
+
+
+def _history_cases(ctx, g):
+    rng = ctx.rng
+    forms = list(g["forms"])
+    live = [(s, d, list(c or [])) for (s, d), (_, c, _) in g["items"]]
+    cases = []
+    # the live registry: every single target from a fresh pipeline, and random histories
+    for t in forms:
+        cases.append((forms, live, [t]))
+    for _ in range(60 if ctx.thorough() else 20):
+        cases.append((forms, live, [rng.choice(forms) for _ in range(rng.randint(2, 5))]))
+    # random registries (other graphs, odd context lists)
+    for _ in range(120 if ctx.thorough() else 40):
+        n = rng.randint(3, 7)
+        fs = ["physical"] + ["f%d" % i for i in range(1, n)]
+        if rng.random() < 0.15:
+            fs = fs[1:] + ["physical"]
+        edges = []
+        for _ in range(rng.randint(n - 1, 2 * n)):
+            s, d = rng.sample(fs, 2)
+            if any(e[0] == s and e[1] == d for e in edges):
+                continue
+            r = rng.random()
+            c = ["point"] if r < 0.6 else [] if r < 0.75 else ["point", "_pipeline"] if r < 0.85 else ["extra"] if r < 0.93 else ["point", "extra"]
+            edges.append((s, d, c))
+        cases.append((fs, edges, [rng.choice(fs) for _ in range(rng.randint(1, 4))]))
+    return cases
+
+
+def corr_pipeline(ctx, g):
+    from hiten.algorithms.hamiltonian.pipeline import HamiltonianPipeline
+    name = "correspondence:pipeline-path-search"
+    point = system().get_libration_point(1)
+    keyid = {"point": 0, "_pipeline": 1, "extra": 2}
+    lines, expect, infos = [], [], []
+    for forms, edges, hist in _history_cases(ctx, g):
+        fid = {f: i for i, f in enumerate(forms)}
+        for f in {x for e in edges for x in e[:2]}:
+            fid.setdefault(f, len(fid))
+        lines.append("reg " + " ".join("%d,%d,%s" % (fid[s], fid[d], ".".join(str(keyid.get(k, 2)) for k in c)) for s, d, c in edges))
+        log = []
+        with _StubRegistry(edges, log):
+            pipe = HamiltonianPipeline(point, 2)
+            pipe._build_physical_hamiltonian = lambda: _FakeHam("physical")
+            multi = False
+            for t in hist:
+                cache_before = list(pipe._hamiltonian_cache.keys())
+                del log[:]
+                try:
+                    h = pipe.get_hamiltonian(t)
+                    if h.name != t:
+                        res = "wrongname %s" % h.name
+                    else:
+                        res = "ok %s|%s" % (" ".join(str(fid[f]) for f in pipe._hamiltonian_cache.keys()),
+                                            " ".join("%d>%d" % (fid[a], fid[b]) for a, b in log))
+                except NotImplementedError:
+                    res = "notimpl"
+                except ValueError as ex:
+                    res = "missingctx" if "Missing required context" in str(ex) else "valueerror %s" % ex
+                lines.append("get %d %d %s" % (fid["physical"], fid[t], " ".join(str(fid[f]) for f in cache_before)))
+                expect.append(res)
+                rk = "get:" + (res.split()[0] if not res.startswith("ok") else "ok-%s" % ("cached" if not log and t in cache_before else "multi-step" if len(log) >= 2 else "one-step"))
+                ctx.hist[rk] = ctx.hist.get(rk, 0) + 1
+                infos.append({"forms": forms, "edges": edges, "history": hist, "target": t, "cache_before": cache_before})
+                multi = multi or len(log) >= 2 or not res.startswith("ok")
+                if not res.startswith("ok"):
+                    break
+            # the BFS itself, for every ordered pair (NotImplementedError <-> none, executed path)
+            if len(forms) <= 9 and ctx.rng.random() < 0.5:
+                for s in forms:
+                    for t in forms:
+                        if s == t:
+                            continue
+                        del log[:]
+                        p2 = HamiltonianPipeline(point, 2)
+                        p2._hamiltonian_cache[s] = _FakeHam(s)
+                        try:
+                            p2._follow_conversion_path(s, t)
+                            res = "path " + " ".join([str(fid[s])] + [str(fid[b]) for a, b in log])
+                        except NotImplementedError:
+                            res = "path none"
+                        except ValueError:
+                            res = None  # an edge with an unsatisfiable context on the path: covered by the get histories
+                        if res is not None:
+                            lines.append("path %d %d" % (fid[s], fid[t]))
+                            expect.append(res)
+                            infos.append({"forms": forms, "edges": edges, "follow_conversion_path": [s, t]})
+            ctx.case(("hist", tuple(forms), tuple((s, d, tuple(c)) for s, d, c in edges), tuple(hist)), nontrivial=multi,
+                     kind="history:live" if "real_modal" in forms else "history:random-registry",
+                     sample={"edges": edges, "history": hist} if len(ctx.samples) < 4 else None)
+    out = [l for l in ctx.lean_run("Drivers/C18.lean", "\n".join(lines) + "\n") if l.strip()]
+    if len(out) != len(expect):
+        ctx.broken.append((name, "driver returned %d lines for %d requests" % (len(out), len(expect))))
+        ctx.obligations[name] = False
+        return
+    bad = 0
+    for m, e, info in zip(out, expect, infos):
+        ctx.corr_cases += 1
+        mm = m.strip()
+        if mm.startswith("missingctx"):
+            mm = "missingctx"
+        if mm != e.strip():
+            bad += 1
+            if bad <= 3:
+                ctx.broken.append((name, "model %r, implementation %r on %r" % (m, e, info)))
+            ctx.obligations[name] = False
+    if not bad:
+        ctx.obligations[name] = True
+    ctx.extra["pipeline_correspondence_checks"] = len(expect)
+
+
+# ---------------------------------------------------------------------------------------------------------------
+# translation validation of the traced point maps
+# ---------------------------------------------------------------------------------------------------------------
+
+POINT_SETS_QUICK = [("earth-moon", i) for i in (1, 2, 3, 4, 5)] + [("sun-earth", 1), ("sun-earth", 2)]
+POINT_SETS_THOROUGH = POINT_SETS_QUICK + [("sun-jupiter", i) for i in (1, 2, 3, 4, 5)] + [("sun-earth", 3), ("sun-earth", 5)]
+
+
+def _point_env(point):
+    d = point.dynamics
+    env = {"mu": float(point.mu), "sgn": float(d.sign), "a": float(d.a)}
+    try:
+        env["gamma"] = float(d.gamma)
+    except Exception:
+        env["gamma"] = 1.0
+    return env
+
+
+def validate_traces(ctx, g):
+    from hiten.algorithms.hamiltonian import transforms as TR
+    from hiten.system.libration.collinear import CollinearPoint
+    tr = g["trace"]
+    worst = 0.0
+    for sysname, idx in (POINT_SETS_THOROUGH if ctx.thorough() else POINT_SETS_QUICK):
+        point = system(sysname).get_libration_point(idx)
+        col = isinstance(point, CollinearPoint)
+        env0 = _point_env(point)
+        for rep in range(12):
+            x = np.array([ctx.rng.uniform(-1, 1) for _ in range(6)])
+            env = dict(env0)
+            env.update({"c%d" % i: float(x[i]) for i in range(6)})
+            for lname, pname in LS_FUNS:
+                if ("Col" in lname) != col:
+                    continue
+                real = getattr(TR, pname)(point, x)
+                model = np.array([T.evalf(e, env) for e in tr[lname]])
+                err = float(np.max(np.abs(model - real) / (1.0 + np.abs(real))))
+                worst = max(worst, err)
+                ctx.traces_validated += 1
+                if not err <= 1e-12:
+                    ctx.broken.append(("trace-validation:" + pname, "traced map and real function differ by %g at %s L%d, coords %r" % (err, sysname, idx, x.tolist())))
+                    ctx.obligations["trace-validation:" + pname] = False
+                    return
+    ctx.obligations["trace-validation:local-synodic"] = True
+    ctx.extra["trace_validation_worst_rel_err"] = worst
+    # the exported matrices mean what the model says: h*h = 1/2 up to one rounding, exported == live
+    h = half_float()
+    if not abs(h * h - 0.5) <= 2.3e-16:
+        ctx.broken.append(("table-validation:half", "1/np.sqrt(2.0) = %r is not 1/sqrt 2" % h))
+        ctx.obligations["table-validation:half"] = False
+
+
+# ---------------------------------------------------------------------------------------------------------------
+# real pipelines: every edge runs, two-way edges are inverse, polynomial change == coordinate change
+# ---------------------------------------------------------------------------------------------------------------
+
+def _coord_map(op, point, mix):
+    """the library's own point-wise map that corresponds to the polynomial operation `op` (new coords -> old coords)"""
+    from hiten.algorithms.hamiltonian import transforms as TR
+    if op == "lin C":
+        return lambda x: TR._coordrealmodal2local(point, x)
+    if op == "lin Cinv":
+        return lambda x: TR._coordlocal2realmodal(point, x)
+    if op in ("lin M12", "lin M012"):
+        return lambda x: TR._solve_real(x, mix_pairs=mix)
+    if op in ("lin Minv12", "lin Minv012"):
+        return lambda x: TR._solve_complex(x, mix_pairs=mix)
+    return None
+
+
+def _abs_scale(poly, x):
+    """sum |c_k| |x^k| : the natural scale of rounding / cleaning errors of an evaluation"""
+    ax = np.abs(np.asarray(x)).astype(np.complex128)
+    absp = _abs_poly(poly)
+    return abs(poly_eval(absp, ax))
+
+
+def _abs_poly(poly):
+    from numba.typed import List
+    out = List()
+    for b in poly:
+        out.append(np.abs(np.asarray(b)).astype(np.complex128))
+    return out
+
+
+def _rand_point(rng, complex_=True, r=0.4):
+    if complex_:
+        return np.array([complex(rng.uniform(-r, r), rng.uniform(-r, r)) for _ in range(6)])
+    return np.array([complex(rng.uniform(-r, r), 0.0) for _ in range(6)])
+
+
+def run_edges(ctx, g, plan=None):
+    from hiten.system.libration.collinear import CollinearPoint
+    items = g["items"]
+    ops_col, ops_tri = g["ops"]
+    keys = [k for k, _ in items]
+    if plan is not None:
+        pass
+    elif ctx.thorough():
+        plan = [(s, i, d) for (s, i) in POINT_SETS_THOROUGH for d in (2, 3, 4, 5, 6)] + [("earth-moon", i, 8) for i in (1, 2, 4)] + [("earth-moon", 1, 7)]
+    else:
+        plan = [("earth-moon", 1, 4), ("earth-moon", 2, 5), ("earth-moon", 1, 6), ("earth-moon", 3, 4), ("earth-moon", 4, 4),
+                ("earth-moon", 5, 3), ("sun-earth", 2, 4), ("sun-earth", 1, 2)]
+    worst_rt, worst_ag = 0.0, 0.0
+    stop = False
+    for sysname, idx, deg in plan:
+        if stop:
+            break
+        pipe = pipeline(sysname, idx, deg)
+        point = pipe.point
+        col = isinstance(point, CollinearPoint)
+        ops = ops_col if col else ops_tri
+        mix = pipe._mix_pairs
+        where = {"system": sysname, "point": "L%d" % idx, "degree": deg}
+        for ei, ((s, d), (fn, ctxl, dflt)) in enumerate(items):
+            ekey = "%s->%s" % (s, d)
+            try:
+                src = pipe.get_hamiltonian(s)
+            except Exception as ex:
+                _viol(ctx, "form-not-computable:%s" % s, "pipeline.get_hamiltonian(%r) raises %r" % (s, ex), dict(where, form=s, error=repr(ex)))
+                stop = True
+                break
+            # --- executability through the public API
+            try:
+                res = src.to_state(d, point=point)
+            except Exception as ex:
+                _viol(ctx, "edge-cannot-run:" + ekey, "registered conversion %s cannot be executed: %r" % (ekey, ex),
+                              dict(where, edge=[s, d], call="pipeline.get_hamiltonian(%r).to_state(%r, point=point)" % (s, d), error=repr(ex)))
+                continue
+            ham = res[0] if isinstance(res, tuple) else res
+            if getattr(ham, "name", None) != d or ham.degree != deg:
+                _viol(ctx, "edge-lands-elsewhere:" + ekey, "conversion %s returns form %r degree %r" % (ekey, getattr(ham, "name", None), getattr(ham, "degree", None)),
+                              dict(where, edge=[s, d]))
+                continue
+            changed = poly_diff(ham.poly_H, src.poly_H) > 0
+            ctx.case(("edge", sysname, idx, deg, ekey), nontrivial=changed, kind="edge:" + ("two-way" if (d, s) in keys else "one-way"),
+                     sample=dict(where, edge=ekey) if ei == 3 and deg == 4 else None)
+            # --- polynomial change == coordinate change (the library's own point-wise map)
+            cmap = _coord_map(ops[ei], point, mix)
+            if cmap is not None:
+                for rep in range(3):
+                    x = _rand_point(ctx.rng, complex_=True)
+                    y = np.asarray(cmap(x), dtype=np.complex128)
+                    new = poly_eval(ham.poly_H, x)
+                    old = poly_eval(src.poly_H, y)
+                    scale = _abs_scale(src.poly_H, y) + 1e-300
+                    ratio = abs(new - old) / scale
+                    worst_ag = max(worst_ag, ratio)
+                    if not ratio <= 1e-9:
+                        _viol(ctx, "poly-vs-coords:" + ekey, "H_%s(x) differs from H_%s(coordinate change of x) by %g (relative to the term-wise scale)" % (d, s, ratio),
+                                      dict(where, edge=[s, d], x=[[v.real, v.imag] for v in x], new_value=[new.real, new.imag], old_at_transformed=[old.real, old.imag],
+                                           coordinate_map=ops[ei]))
+                        break
+            # --- two-way edges: round trip
+            if (d, s) in keys:
+                try:
+                    back = ham.to_state(s, point=point)
+                except Exception as ex:
+                    continue   # reported when that edge is visited
+                tol = max(float((dflt or {}).get("tol", 1e-12)), float((items[keys.index((d, s))][1][2] or {}).get("tol", 1e-12)))
+                scale = poly_maxabs(src.poly_H)
+                err = poly_diff(back.poly_H, src.poly_H)
+                # cleaned-away coefficients (<= tol each) are spread by the reverse substitution; growth <= (row sum)^deg
+                growth = _growth(ops[ei], point, deg)
+                allowed = 1e3 * (tol * growth + 1e-15 * scale * growth)
+                worst_rt = max(worst_rt, err / allowed)
+                if not err <= allowed:
+                    kbad = _worst_coeff(back.poly_H, src.poly_H)
+                    _viol(ctx, "round-trip:" + ekey, "%s -> %s -> %s changes a coefficient by %g (allowed %g = 1e3*(tol*growth + eps*scale*growth))" % (s, d, s, err, allowed),
+                                  dict(where, edge=[s, d], max_coefficient_change=err, allowed=allowed, tol=tol, growth=growth, worst=kbad))
+    ctx.extra["round_trip_worst_over_allowed"] = worst_rt
+    ctx.extra["poly_vs_coords_worst_ratio"] = worst_ag
+
+
+def _growth(op, point, deg):
+    if op in ("lin C", "lin Cinv"):
+        C, Cinv = point.normal_form_transform
+        r = max(float(np.abs(C).sum(axis=1).max()), float(np.abs(Cinv).sum(axis=1).max()))
+    else:
+        r = math.sqrt(2.0)
+    return float(r) ** deg * 500.0   # 500 ~ number of terms that can feed one coefficient
+
+
+def _worst_coeff(p, q):
+    best = (0.0, None)
+    dp, dq = poly_to_dict(p), poly_to_dict(q)
+    for k in set(dp) | set(dq):
+        e = abs(dp.get(k, 0) - dq.get(k, 0))
+        if e > best[0]:
+            best = (e, {"exponents": list(k), "after_round_trip": str(dp.get(k, 0)), "before": str(dq.get(k, 0))})
+    return best[1]
+
+
+# ---------------------------------------------------------------------------------------------------------------
+# all polynomials, not only Hamiltonians: random polynomials x the four linear changes
+# ---------------------------------------------------------------------------------------------------------------
+
+def _random_poly(rng, deg, nterms):
+    import polyutil
+    d = {}
+    for _ in range(nterms):
+        dg = rng.randint(0, deg)
+        k = [0] * 6
+        for _ in range(dg):
+            k[rng.randrange(6)] += 1
+        d[tuple(k)] = complex(rng.uniform(-1, 1), rng.uniform(-1, 1))
+    return polyutil.poly_from_dict(d, deg)
+
+
+def random_polys(ctx):
+    import polyutil
+    from hiten.algorithms.hamiltonian import transforms as TR
+    degs = [2, 3, 4, 5, 6, 7, 8] if ctx.thorough() else [2, 3, 5, 8]
+    points = [("earth-moon", 1), ("earth-moon", 4)] + ([("sun-earth", 2), ("earth-moon", 3)] if ctx.thorough() else [])
+    worst = 0.0
+    for deg in degs:
+        psi, clmo, enc = polyutil.tables(deg)
+        for sysname, idx in points:
+            point = system(sysname).get_libration_point(idx)
+            mix = (1, 2) if idx <= 3 else (0, 1, 2)
+            nterms = 12 if deg >= 7 else 25
+            P = _random_poly(ctx.rng, deg, nterms)
+            changes = [
+                ("_substitute_complex", lambda p: TR._substitute_complex(p, deg, psi, clmo, tol=1e-14, mix_pairs=mix), lambda x: TR._solve_real(x, mix_pairs=mix),
+                 "_substitute_real", lambda p: TR._substitute_real(p, deg, psi, clmo, tol=1e-14, mix_pairs=mix)),
+                ("_substitute_real", lambda p: TR._substitute_real(p, deg, psi, clmo, tol=1e-14, mix_pairs=mix), lambda x: TR._solve_complex(x, mix_pairs=mix),
+                 "_substitute_complex", lambda p: TR._substitute_complex(p, deg, psi, clmo, tol=1e-14, mix_pairs=mix)),
+                ("_polylocal2realmodal", lambda p: TR._polylocal2realmodal(point, p, deg, psi, clmo, tol=1e-14), lambda x: TR._coordrealmodal2local(point, x),
+                 "_polyrealmodal2local", lambda p: TR._polyrealmodal2local(point, p, deg, psi, clmo, tol=1e-14)),
+                ("_polyrealmodal2local", lambda p: TR._polyrealmodal2local(point, p, deg, psi, clmo, tol=1e-14), lambda x: TR._coordlocal2realmodal(point, x),
+                 "_polylocal2realmodal", lambda p: TR._polylocal2realmodal(point, p, deg, psi, clmo, tol=1e-14)),
+            ]
+            for name, f, cmap, iname, finv in changes:
+                Q = f(P)
+                ctx.case(("randpoly", deg, sysname, idx, name), kind="random-poly:deg%d" % deg)
+                for rep in range(3):
+                    x = _rand_point(ctx.rng, True, 0.6)
+                    y = np.asarray(cmap(x), dtype=np.complex128)
+                    new, old = poly_eval(Q, x), poly_eval(P, y)
+                    ratio = abs(new - old) / (_abs_scale(P, y) + 1e-300)
+                    worst = max(worst, ratio)
+                    if not ratio <= 1e-9:
+                        _viol(ctx, "poly-vs-coords:" + name, "%s(p)(x) differs from p(coordinate change of x) by %g relative to the term-wise scale" % (name, ratio),
+                                      {"function": name, "degree": deg, "system": sysname, "point": "L%d" % idx, "poly": {str(k): str(v) for k, v in poly_to_dict(P).items()},
+                                       "x": [[v.real, v.imag] for v in x], "new_value": str(new), "old_at_transformed": str(old)})
+                        return
+                R = finv(Q)
+                err = poly_diff(R, P)
+                growth = _growth("lin C" if "modal" in name else "lin M12", point, deg)
+                allowed = 1e3 * (1e-14 * growth + 1e-15 * growth)
+                if not err <= allowed:
+                    _viol(ctx, "round-trip:" + name, "%s then %s changes a coefficient of a random polynomial by %g (allowed %g)" % (name, iname, err, allowed),
+                                  {"function": name, "inverse": iname, "degree": deg, "system": sysname, "point": "L%d" % idx,
+                                   "poly": {str(k): str(v) for k, v in poly_to_dict(P).items()}, "worst": _worst_coeff(R, P)})
+                    return
+    ctx.extra["random_poly_worst_ratio"] = worst
+
+
+# ---------------------------------------------------------------------------------------------------------------
+# point-wise maps synodic <-> local <-> real modal <-> complex
+# ---------------------------------------------------------------------------------------------------------------
+
+def pointwise_maps(ctx):
+    from hiten.algorithms.hamiltonian import transforms as TR
+    from hiten.system.libration.collinear import CollinearPoint
+    worst = 0.0
+    n = 40 if ctx.thorough() else 12
+    for sysname, idx in (POINT_SETS_THOROUGH if ctx.thorough() else POINT_SETS_QUICK):
+        point = system(sysname).get_libration_point(idx)
+        col = isinstance(point, CollinearPoint)
+        l2s = TR._local2synodic_collinear if col else TR._local2synodic_triangular
+        s2l = TR._synodic2local_collinear if col else TR._synodic2local_triangular
+        mix = (1, 2) if col else (0, 1, 2)
+        C, Cinv = point.normal_form_transform
+        cond = float(np.linalg.cond(C))
+        pairs = [
+            ("local->synodic->local", lambda v: s2l(point, l2s(point, v)), False, 1.0),
+            ("synodic->local->synodic", lambda v: l2s(point, s2l(point, v)), False, 1.0),
+            ("local->real_modal->local", lambda v: TR._coordrealmodal2local(point, TR._coordlocal2realmodal(point, v)), False, cond),
+            ("real_modal->local->real_modal", lambda v: TR._coordlocal2realmodal(point, TR._coordrealmodal2local(point, v)), False, cond),
+            ("real->complex->real", lambda v: TR._solve_real(TR._solve_complex(v, mix_pairs=mix), mix_pairs=mix), True, 1.0),
+            ("complex->real->complex", lambda v: TR._solve_complex(TR._solve_real(v, mix_pairs=mix), mix_pairs=mix), True, 1.0),
+            ("synodic->local->modal->complex->modal->local->synodic",
+             lambda v: l2s(point, np.real(TR._coordrealmodal2local(point, TR._solve_real(TR._solve_complex(TR._coordlocal2realmodal(point, s2l(point, v)), mix_pairs=mix), mix_pairs=mix)))),
+             False, cond),
+        ]
+        for rep in range(n):
+            for name, f, cplx, amp in pairs:
+                v = _rand_point(ctx.rng, cplx, 1.0)
+                if not cplx:
+                    v = v.real.copy()
+                w = np.asarray(f(v))
+                # local coordinates are synodic offsets divided by gamma: errors scale with the intermediate magnitude
+                scale = 1.0 + float(np.max(np.abs(v)))
+                if col:
+                    scale = scale * max(1.0, 1.0) + (abs(point.mu) + 1.0)
+                err = float(np.max(np.abs(w - v))) / (scale * amp)
+                worst = max(worst, err)
+                ctx.case(("pt", sysname, idx, name, rep), kind="point-map:" + name.split("->")[0], nontrivial=True)
+                if not err <= 1e-11:
+                    _viol(ctx, "point-maps:" + name + (":collinear" if col else ":triangular"),
+                                  "%s is not the identity at %s L%d: error %g (relative to magnitude x cond)" % (name, sysname, idx, err),
+                                  {"system": sysname, "point": "L%d" % idx, "chain": name, "input": [str(t) for t in v], "output": [str(t) for t in w]})
+                    return
+    ctx.extra["point_maps_worst_rel_err"] = worst
